@@ -377,6 +377,13 @@ func shuffle(cs []Case, rng *Rand) {
 // after a few 10 s penalties) and feeds each result to `on`.
 func execute(c *Ctx, cases []Case, st *runState, on func(cs *Case, r *Res)) {
 	cfg := runCfg{Workers: c.Work, Timeout: watchdog, ASLimit: asLimit}
+	if v := os.Getenv("PARSERS_MAXCASES"); v != "" { // development aid
+		var n int
+		fmt.Sscan(v, &n)
+		if n > 0 && n < len(cases) {
+			cases = cases[:n]
+		}
+	}
 	waves := 8
 	per := len(cases)/waves + 1
 	for lo := 0; lo < len(cases); lo += per {
@@ -410,6 +417,16 @@ func execute(c *Ctx, cases []Case, st *runState, on func(cs *Case, r *Res)) {
 		}
 		if os.Getenv("PARSERS_VERBOSE") != "" {
 			fmt.Fprintf(os.Stderr, "[parsers] wave %d..%d of %d done, %d timeouts re-run, %d signatures so far\n", lo, hi, len(cases), len(again), len(st.hits))
+		}
+		if lf := os.Getenv("PARSERS_LOG"); lf != "" {
+			if f, err := os.OpenFile(lf, os.O_APPEND|os.O_CREATE|os.O_WRONLY, 0o644); err == nil {
+				for i := range batch {
+					if res[i].Status != "ok" && res[i].Status != "err" || res[i].Ms > 1000 || res[i].Peak > 256<<20 {
+						fmt.Fprintf(f, "%s\t%d ms\t%d MiB\t%s\t%s\t%s\t%s\t%s\t%s\n", res[i].Status, res[i].Ms, res[i].Peak>>20, batch[i].Entry, batch[i].Mut, batch[i].Seed, clipStr(res[i].Detail, 200), batch[i].FI.String(), clipStr(hexs(batch[i].Data), 400))
+					}
+				}
+				f.Close()
+			}
 		}
 		for i := range batch {
 			if res[i].Status == "timeout" {
